@@ -977,6 +977,34 @@ func (e *Env) traceMatch(pats []ast.Expr) (SVal, error) {
 	return mkBool(and(cs...)), nil
 }
 
+// matchFields: fields(p0, p1, ...) is a field-wise pattern on a struct value; `_` matches anything and a
+// nested fields(...) matches a struct-valued field.
+func (e *Env) matchFields(fc *ast.CallExpr, arg SVal) (string, error) {
+	if arg.K != KStruct || len(fc.Args) > len(arg.Elems) {
+		return "false", nil
+	}
+	var cs []string
+	for j, fa := range fc.Args {
+		if id, ok := fa.(*ast.Ident); ok && id.Name == "_" {
+			continue
+		}
+		if sub, ok := fa.(*ast.CallExpr); ok && exprString(sub.Fun) == "fields" {
+			c, err := e.matchFields(sub, arg.Elems[j])
+			if err != nil {
+				return "", err
+			}
+			cs = append(cs, c)
+			continue
+		}
+		fv, err := e.eval(fa)
+		if err != nil {
+			return "", err
+		}
+		cs = append(cs, e.X.valEq(e.St, arg.Elems[j], fv))
+	}
+	return and(cs...), nil
+}
+
 // matchEventName: the pattern names the kind of event ev (arguments not considered).
 func (e *Env) matchEventName(p ast.Expr, ev Event) bool {
 	if call, ok := p.(*ast.CallExpr); ok {
@@ -1007,21 +1035,11 @@ func (e *Env) matchEvent(p ast.Expr, ev Event) (string, error) {
 			continue
 		}
 		if fc, ok := a.(*ast.CallExpr); ok && exprString(fc.Fun) == "fields" {
-			// fields(p0, p1, ...): field-wise pattern on a struct argument, `_` matches anything
-			arg := ev.Args[i]
-			if arg.K != KStruct || len(fc.Args) > len(arg.Elems) {
-				return "false", nil
+			c, err := e.matchFields(fc, ev.Args[i])
+			if err != nil {
+				return "", err
 			}
-			for j, fa := range fc.Args {
-				if id, ok := fa.(*ast.Ident); ok && id.Name == "_" {
-					continue
-				}
-				fv, err := e.eval(fa)
-				if err != nil {
-					return "", err
-				}
-				cs = append(cs, e.X.valEq(e.St, arg.Elems[j], fv))
-			}
+			cs = append(cs, c)
 			continue
 		}
 		v, err := e.eval(a)
